@@ -377,6 +377,106 @@ def free_running(ctx, f9_active):
     return res
 
 
+# ====================================================================== ThreadSanitizer under the deterministic scheduler
+
+def tsan_scheduled(ctx, f9_active, sets, base):
+    """The scheduler harness built with ThreadSanitizer.  The scheduler's own hand-over and the monitors are hidden from
+    ThreadSanitizer and the lock shim reports acquire / release of exactly the library's lock operations, so its happens-before
+    relation is the one the readers/writer lock induces: every pair of conflicting accesses to FFT_LEN, the table pointers or the
+    tables that the lock discipline does not order is reported, deterministically per schedule (no timing involved) - this sees
+    inside the transforms, which the event traces do not.  Runs start after a completed initialisation (warm); job sets without
+    variable-rate jobs.  Known: `_soxr_trace_level` (benign) and the unguarded test of LSX_INIT_FFT_CACHE reading FFT_LEN against a
+    writer's store (F9); anything else is a violation."""
+    res = {"schedules": 0, "reports": 0, "known": {}, "violations": 0}
+    exe = common.build_harness("sched", ["conc/sched.c"], variant="tsan")
+    rng = ctx.rng
+    specs, n = [], 0
+    for sname in sets:
+        jobs = JOBSETS[sname][0]
+        if "V:" in jobs:
+            continue
+        nt = nthreads(jobs)
+        sw = ["n"] if nt == 2 else ["n", "m"]
+        nd = base.get((sname, 1), 30)
+        cand = [dict(tail="c"), dict(tail="r"), dict(tail="r", relswitch=1)]
+        step = 1 if not ctx.quick else (2 if nt == 2 else 3)
+        for i in range(0, nd + 2, step):
+            for ch in sw:
+                cand.append(dict(sched="c" * i + ch, tail="c"))
+        for _ in range(6 if ctx.quick else 60):
+            cand.append(dict(tail="x", seed=1 + rng.below(1 << 30), p=rng.choice([16, 64, 128, 255]), relswitch=rng.below(2)))
+        if not ctx.quick:
+            for _ in range(150):
+                i, j = rng.below(nd + 1), rng.below(nd + 1)
+                cand.append(dict(sched="c" * i + rng.choice(sw) + "c" * j + rng.choice(sw), tail="c"))
+        for kw in cand:
+            n += 1
+            specs.append(mk(sname, "tsan", id="t%05d" % n, warm=1, **kw))
+    by = {}
+    for sp in specs:
+        by.setdefault(sp["set"], []).append(sp)
+    chunks = []
+    for lst in by.values():
+        for i in range(0, len(lst), 25):
+            chunks.append(lst[i:i + 25])
+    opts = "halt_on_error=0 exitcode=0"
+
+    def run(chunk):
+        inp = "".join(spec_line(sp) + "\n" for sp in chunk)
+        p = subprocess.run([exe, "batch", "-"], input=inp, stdout=subprocess.PIPE, stderr=subprocess.PIPE, universal_newlines=True, timeout=3600,
+                           env=dict(os.environ, TSAN_OPTIONS=opts))
+        results = {}
+        for line in p.stdout.splitlines():
+            if line.startswith("RESULT "):
+                t = line.split()
+                results[t[1]] = dict(x.split("=", 1) for x in t[2:])
+        segs, cur = {}, None
+        for line in p.stderr.splitlines():
+            if line.startswith("TSANRUN "):
+                cur = line.split()[1]
+                segs[cur] = []
+            elif cur is not None:
+                segs[cur].append(line)
+        return chunk, results, {k: "\n".join(v) for k, v in segs.items()}, p.returncode, p.stderr[-300:]
+
+    groups = {}
+    with ThreadPoolExecutor(WORKERS) as ex:
+        for chunk, results, segs, rc, tail in ex.map(run, chunks):
+            for sp in chunk:
+                r = results.get(sp["id"])
+                line = spec_line(sp)
+                how = "TSAN_OPTIONS='%s' build/harness/sched-tsan-* line '%s'" % (opts, line)
+                if r is None:
+                    ctx.violation("ThreadSanitizer build of the scheduler harness produced no result for a schedule (exit %s): %s" % (rc, tail),
+                                  {"line": line, "how": how})
+                    continue
+                res["schedules"] += 1
+                if r.get("status") != "ok" or r.get("wrong") != "-":
+                    ctx.violation("ThreadSanitizer build, run after a completed initialisation: status %s, jobs differing from the serial run %s"
+                                  % (r.get("status"), r.get("wrong")), {"line": line, "how": how})
+                for rep in parse_tsan(segs.get(sp["id"], "")):
+                    res["reports"] += 1
+                    k = tsan_known(rep)
+                    if k == "benign":
+                        res["known"]["_soxr_trace_level (benign)"] = res["known"].get("_soxr_trace_level (benign)", 0) + 1
+                    elif k == "F9" and f9_active:
+                        res["known"]["F9 unguarded read of FFT_LEN"] = res["known"].get("F9 unguarded read of FFT_LEN", 0) + 1
+                        res["f9_tsan"] = ("ThreadSanitizer under the scheduler (runs after a completed initialisation): the unguarded test of "
+                                          "LSX_INIT_FFT_CACHE reads FFT_LEN while a writer holding the lock stores it")
+                    else:
+                        key = (rep["summary"], rep["location"].split(" of size")[0])
+                        groups.setdefault(key, []).append((line, how, rep))
+    for key in sorted(groups)[:6]:
+        line, how, rep = groups[key][0]
+        res["violations"] += len(groups[key])
+        ctx.violation("accesses not ordered by the cache lock, in %d schedule(s) run after a completed initialisation (ThreadSanitizer, "
+                      "happens-before = the library's own lock operations): %s; location %s; accesses in %s"
+                      % (len(groups[key]), rep["summary"], rep["location"], ", ".join("%s (%s)" % t for t in rep["tops"])),
+                      {"line": line, "how": how, "report": rep["text"]})
+    ctx.cov["tsan_under_scheduler"] = res
+    return res
+
+
 # ====================================================================== C06, threads clause
 
 def clips_threads(ctx, broken=None, audit=True):
